@@ -55,6 +55,20 @@ def extra(run, cases, oracle, tier):
             iv = rel["Weyl_invariants"]
             inv[tetrad] = (iv["I"][idx], iv["J"][idx])
             run.traces += 1
+            if tetrad == "other":
+                # fluid moving with respect to the slicing: the fluid-adapted tetrad must still be orthonormal for g
+                relm, idxm, _ = GR.build_instance(c, oracle[ci], 4, opts={"tetrad": tetrad, "_moving_fluid": True})
+                em = [v[(...,) + idxm] for v in relm.tetrad_base()]
+                g4m = relm["gdown4"][(...,) + idxm]
+                gm = np.array([[em[a] @ g4m @ em[b] for b in range(4)] for a in range(4)])
+                run.count((c["cls"], c["seed"], "moving-fluid tetrad"))
+                if np.abs(gm - np.diag([-1, 1, 1, 1])).max() > 1e-9:
+                    run.violation({"clause": "TetradOrthonormal", "tetrad": tetrad, "fluid": "moving"},
+                                  f"fluid-adapted tetrad (fluid moving with v = (0.25, -0.15, 0.1)) is not orthonormal for g on the {c['cls']} "
+                                  f"spacetime: g(e_a, e_b) = {gm.round(6).tolist()}", {"class": c["cls"], "seed": c["seed"]})
+                if np.abs(em[0] - relm["uup4"][(...,) + idxm]).max() > 1e-12:
+                    run.violation({"clause": "TetradAdaptedToFluid"}, "e0 of the fluid-adapted tetrad is not the fluid 4-velocity",
+                                  {"class": c["cls"], "seed": c["seed"]})
         if c["cls"] in ("wave-zone", "minkowski-like"):
             (i1, j1), (i2, j2) = inv["quasi-Kinnersley"], inv["other"]
             sc = max(1.0, abs(i1), abs(j1))
